@@ -38,7 +38,8 @@ CONSTANTS Lens,        \* set of chain lengths n = to - prevheight
           ScenPos,     \* positions (request indices; 0 and n+1 = just outside) a scenario may name
           Variants,    \* subset of {"pinned","fixed"}
           Interleave,  \* TRUE: answers of a batch arrive in any order; FALSE: a random-free ascending order
-          Emit         \* TRUE: terminal states carry the JSON case in `step`
+          Emit         \* "done": terminal states carry the JSON case in `step`; "init": initial states
+                       \* do (case enumeration only, with NEXT Halt); "none"
 
 VARIABLES n, limit, pk, scen, variant,     \* the case
           pc,        \* "pref" | "work" | "done"
@@ -80,13 +81,15 @@ Fetch(i) ==
 -----------------------------------------------------------------------------
 (* the statement *)
 Answers == {Fetch(i) : i \in 1..n}
-Slot(h) == {m \in Answers : m.h = h}
-Below(h) == IF h - 1 = prevheight THEN (IF pk = "nil" THEN {} ELSE {PrevMap}) ELSE Slot(h - 1)
 ChainOK ==
-  /\ Err \notin Answers
-  /\ \A h \in Heights :
-       /\ Cardinality(Slot(h)) = 1
-       /\ \A m \in Slot(h) : h = 0 \/ (\E b \in Below(h) : m.prev = b.id)
+  LET A == Answers                                   \* evaluated once
+      Slot(h) == {m \in A : m.h = h}
+      Below(h) == IF h - 1 = prevheight THEN (IF pk = "nil" THEN {} ELSE {PrevMap}) ELSE Slot(h - 1)
+  IN /\ Err \notin A
+     /\ \A h \in Heights :
+          LET S == Slot(h) IN
+          /\ Cardinality(S) = 1
+          /\ \A m \in S : h = 0 \/ (\E b \in Below(h) : m.prev = b.id)
 WellFormed == \A i \in 1..n : Fetch(i) # Err => Fetch(i).h = H(i)   \* every answer has the requested height
 
 -----------------------------------------------------------------------------
@@ -98,21 +101,22 @@ Scens(len) ==
      \cup {s \in [kind : {"wrongheight"} \cap ScenKinds, i : P, j : Q] : s.i # s.j}
      \cup {s \in [kind : {"swap"} \cap ScenKinds, i : P, j : P] : s.i < s.j}
 
-Init == /\ n \in Lens /\ limit \in Limits /\ pk \in PrevKinds /\ variant \in Variants
-        /\ scen \in Scens(n)
-        /\ pc = "pref" /\ bstart = 0 /\ maps = <<>> /\ lastprev = NoMap /\ newprev = PrevMap
-        /\ pending = {} /\ order = <<>> /\ called = <<>> /\ ret = "running" /\ step = ""
-
 bend == Min2(bstart + limit, n)      \* BatchWork: end (exclusive, 0-based)
 
 Out == ToJson([n |-> n, limit |-> limit, pk |-> pk, prevh |-> prevheight, scen |-> scen, variant |-> variant,
                order |-> order,
-               answers |-> [i \in 1..n |-> Fetch(i)],
+               dev |-> {[i |-> i, m |-> Fetch(i)] : i \in ({scen.i, scen.j} \cap (1..n))},  \* all other answers are Valid(i)
                want |-> [chainok |-> ChainOK, wellformed |-> WellFormed],
                impl |-> [ret |-> ret, called |-> called]])
 
+Init == /\ n \in Lens /\ limit \in Limits /\ pk \in PrevKinds /\ variant \in Variants
+        /\ scen \in Scens(n)
+        /\ pc = "pref" /\ bstart = 0 /\ maps = <<>> /\ lastprev = NoMap /\ newprev = PrevMap
+        /\ pending = {} /\ order = <<>> /\ called = <<>> /\ ret = "running"
+        /\ step = IF Emit = "init" THEN Out ELSE ""
+
 Frame == /\ UNCHANGED <<n, limit, pk, scen, variant>>
-         /\ step' = IF Emit /\ pc' = "done" THEN Out' ELSE ""
+         /\ step' = IF Emit = "done" /\ pc' = "done" THEN Out' ELSE ""
 
 (* BatchWork's preparation step: lastprev = newprev; maps = make(r == 0 ? limit : r), r = (last+1) % limit *)
 Pref ==
@@ -168,6 +172,7 @@ EndBatch ==
 Runnable == IF pending = {} THEN {} ELSE IF Interleave THEN pending ELSE {MinOf(pending)}
 
 Next == Pref \/ EndBatch \/ \E i \in Runnable : Arrive(i)
+Halt == FALSE /\ UNCHANGED vars         \* case enumeration: initial states only
 
 Spec == Init /\ [][Next]_vars /\ WF_vars(Next)
 
